@@ -192,7 +192,7 @@ def r204_validator(ctx):
     fq = M_IV + ":_validate_and_reformat_input"
     r = A.run(fq)
     P = r.params
-    raises = [e for e in r.events if e.kind == "raise" and e.func == fq]
+    raises = [e for e in r.events if e.kind == "raise"]
     ctx.floor("R20.4", "raise statements in the shared validator", len(raises), 6)
     np_ = {"np": glob("numpy")}
     ya = A.entry(r, "np.asarray(y)", np_)
